@@ -706,8 +706,7 @@ theorem mutation_safe_full_operations : ∀ (st : St), Reachable st →
     in `A`), not containing the root, and let every handler action be confined to `A` (`Conf`: close, unref, hide,
     show and steal-input act on windows of `A`; restack requests and extra references are unrestricted; `take_focus`
     acts on a window of `A` and then `A` must be a union of whole top-level subtrees that also holds the root's
-    present focus chain, `FocusOK` — the windows the run-time monitor exempts), in a state that satisfies the store invariant and in which the application still owns every
-    window outside `A`.  Then, whatever the handlers do and claim, the windows *outside `A`* are offered a key event in
+    present focus chain, `FocusOK` — the windows the run-time monitor exempts), in a state that satisfies the store invariant (outside any dispatch).  Then, whatever the handlers do and claim, the windows *outside `A`* are offered a key event in
     the reference order `keyVisits` of the tree **as it was when the dispatch began**: what is offered outside `A` is a
     prefix of the reference order outside `A` (also on first occurrences, i.e. against `keyOrder`), and all of it when
     nobody claims the event.  The store invariant holds again afterwards. -/
@@ -726,6 +725,15 @@ theorem delivery_unaffected_key (A : Aff) (fuel F : Nat) (st st' : St) (ev : Ev)
   refine ⟨ws, off, m.1, by simp [keyOrder, hv], ?_, m.2, g.good.1⟩
   rw [← firstOcc_fA, ← firstOcc_fA]
   exact firstOcc_prefix m.1
+
+/-- In every state the engine can reach the invariant part of the hypotheses holds by itself (`reachable_good`): what
+    remains to be checked is the closure of `A` under descendants, the side condition on stealing windows, and that
+    the handlers' actions are confined to `A`. -/
+theorem unaffected_of_reachable (A : Aff) {st : St} (h : Reachable st) (hd : Down A st.tree)
+    (hs : ∀ (p : WinTree.Id) (w0 : Win) (a : WinTree.Id) (rest : List WinTree.Id), A p = false → st.tree.wins[p]? = some w0 →
+      w0.freed = false → w0.children = a :: rest → A a = true → ∀ c ∈ rest, A c = false → stealAt st.tree c = false)
+    (hc : Conf A st.tree st.binds) : Unaffected A st :=
+  ⟨reachable_good h, ⟨(reachable_good h).tree, hd, hs⟩, hc⟩
 
 /-- **delivery_unaffected (mouse).**  Under the same hypotheses a mouse event dispatched to a window `win` outside
     `A` (the root for the event itself, the drag source for DRAG_STOP / DRAG_OUTSIDE) is offered to the windows
